@@ -466,6 +466,9 @@ def judge(o, go, m):
             elif g.get("outcome") not in ("resolve-error", "unmarshal-error"):
                 return "violation", "%s: %r" % (side, g.get("outcome"))
         if ga.get("outcome") == "resolved" and gb.get("outcome") == "resolved" and ga.get("verdicts") != gb.get("verdicts"):
+            if H and H != ["D22"]:
+                # the decoration holds a case variant of a keyword (known finding D4); both documents already agree with the model
+                return "known:" + H[0], "verdicts change under a decoration whose key case-folds onto a keyword (ValidateDefaults)"
             return "violation", "a decoration changes verdicts under ValidateDefaults: undecorated %r, decorated %r" % (ga.get("verdicts"), gb.get("verdicts"))
         return "agree", ""
     for side in ("a", "b"):
